@@ -260,18 +260,30 @@ def check_shots(case, acc):
         acc.transitions += len(trace)
         # which draws are expected: (prep frequencies unless the circuit is empty), then one per term
         exp_draws = []
-        if prep["w"] or init is not None:
-            exp_draws.append(("prep", None))
-        for t, cf in terms:
-            if t or what != "exp":
-                exp_draws.append(("term", t))
+        cplx = what != "exp" and any(isinstance(cf, complex) and cf.imag != 0 for _, cf in terms)
+        if cplx:
+            # documented: the operator is split into its real and imaginary Hermitian parts, each sampled on its own;
+            # variance = sum_i (Re c_i)^2 Var_i[real-part samples] + (Im c_i)^2 Var_i[imaginary-part samples]
+            for part in ("re", "im"):
+                sub = [(t, (cf.real if part == "re" else cf.imag)) for t, cf in terms if (cf.real if part == "re" else cf.imag) != 0]
+                if not sub:
+                    continue
+                if prep["w"] or init is not None:
+                    exp_draws.append(("prep", None, None))
+                exp_draws += [("term", t, w) for t, w in sub]
+        else:
+            if prep["w"] or init is not None:
+                exp_draws.append(("prep", None, None))
+            for t, cf in terms:
+                if t or what != "exp":
+                    exp_draws.append(("term", t, cf))
         if len(trace) != len(exp_draws):
             bad("number-of-draws", {"draws": len(trace), "expected": len(exp_draws)})
             break
         est, var = 0.0, 0.0
         k = 0
         okd = True
-        for (kind, t), info, ch_i in zip(exp_draws, infos, choices):
+        for (kind, t, wcf), info, ch_i in zip(exp_draws, infos, choices):
             handed = decode(info, n)
             refd = SV.pauli_basis_distribution(psi, n, t or ())
             refd = {kk: v for kk, v in refd.items() if v >= 1e-10}
@@ -284,7 +296,7 @@ def check_shots(case, acc):
                 drawn = [format(int(info["xk"][j]), f"0{n}b")[::-1] for j in seqs[ch_i]]
                 vals = [SV.parity_value(bts, t) for bts in drawn]
                 m = sum(vals) / len(vals)
-                cf = dict(terms)[t]
+                cf = wcf
                 est += cf * m
                 var += (cf * cf) * (1 - m * m)
                 if info["size"] != shots:
@@ -303,6 +315,62 @@ def check_shots(case, acc):
     acc.states += n_exec
     if n_exec > 1:
         acc.nt(("shots", what, prep["w"], op, shots))
+
+
+BULK_MAX_EXEC = 64   # the unchanged code makes <= 16 executions per shot number; a change that multiplies the draws must not make the tree explode
+
+
+def check_bulk_shots(case, acc):
+    """Very large shot numbers (chunked sampling): <Z0> of H|0> with the scripted sampler answering every bulk draw with a constant
+    array (one choice over the support per draw, all explored): the draw sizes must add up to n_shots and the estimate must be the
+    mean of the drawn eigenvalues."""
+    from tangelo.linq import get_backend, Circuit, Gate
+    from tangelo.toolboxes.operators import QubitOperator
+    import tangelo.linq.target.backend as BK
+    shots = case["n_shots"]
+    c = Circuit([Gate("H", 0)])
+    qop = QubitOperator("Z0", 1.0)
+
+    def run(ch):
+        be = get_backend("cirq", n_shots=shots)
+        with seams.patched(BK, "stats", seams.StatsProxy(ch)):
+            return as_complex(be.get_expectation_value(qop, c))
+
+    n_exec = 0
+    for choices, trace, infos, res in choicetree.explore(run, check_replay=False, max_exec=BULK_MAX_EXEC):
+        n_exec += 1
+        acc.ev()
+        acc.transitions += len(trace)
+        # two sampler calls are made (the preparation circuit, then the term), each cut into chunks: the draws are grouped into calls
+        # of exactly n_shots samples; the estimate is the mean of the eigenvalues drawn in the last call
+        groups, cur, tot_cur = [], [], 0
+        for info, ch_i in zip(infos, choices):
+            cur.append((info, ch_i))
+            tot_cur += info["size"]
+            if tot_cur >= shots:
+                groups.append((tot_cur, cur))
+                cur, tot_cur = [], 0
+        if cur and tot_cur:
+            groups.append((tot_cur, cur))
+        total = groups[-1][0] if groups else 0
+        s1 = 0.0
+        for info, ch_i in (groups[-1][1] if groups else []):
+            if info["size"] == 0:
+                continue
+            if info.get("bulk"):
+                vals = [(int(info["xk"][ch_i]), info["size"])]
+            else:
+                vals = [(int(info["xk"][j]), 1) for j in choicetree.sequences(len(info["xk"]), info["size"])[ch_i]]
+            for x, m in vals:
+                s1 += m * (1.0 if x == 0 else -1.0)
+        if len(groups) != 2 or any(g[0] != shots for g in groups) or abs(res - s1 / shots) > 1e-12:
+            acc.violation("cirq/shots/exp/chunked-draws-do-not-add-up-to-n_shots", case,
+                          {"n_shots": shots, "draw_sizes": [i["size"] for i in infos], "returned": res, "mean_of_drawn_eigenvalues": s1 / shots},
+                          group="cirq/shots/exp/chunked-draws")
+            break
+        acc.out(("bulk", shots, round(res.real, 9)))
+    acc.states += n_exec
+    acc.nt(("bulk-shots", shots))
 
 
 def check_mixed_shots(case, acc):
@@ -536,8 +604,13 @@ def shards(tier, seed):
     for mi in (0, 1, 2, 4):
         sh.append({"kind": "mixed_shots", "mi": mi, "seed": seed, "tier": tier})
         sh.append({"kind": "dmr_shots", "mi": mi, "seed": seed, "tier": tier})
+    CH = 10 ** 7   # chunk size of the sampling loop (a local constant of the implementation); shot numbers on both sides of its
+    #                multiples and one that is no multiple of any round chunk size
+    for shots in ((2500001, CH - 1, CH, CH + 1) if tier == "quick" else (9, 65, 2500001, CH - 1, CH, CH + 1, 2 * CH)):
+        sh.append({"kind": "bulk_shots", "n_shots": shots, "seed": seed, "tier": tier})
     for n in (9, 10, 11, 12):      # post-selected estimates on wide registers (measurement keys with two digits)
         sh.append({"kind": "wide", "n": n, "seed": seed, "tier": tier})
+    sh.sort(key=lambda x: -x.get("n_shots", 0) if x["kind"] == "bulk_shots" else 1)
     return sh
 
 
@@ -546,6 +619,10 @@ def run_shard(sh):
     seed = sh["seed"]
     P, M = preps(seed), meas_preps(seed)
     k = sh["kind"]
+    if k == "bulk_shots":
+        check_bulk_shots({"kind": "bulk_shots", "n_shots": sh["n_shots"]}, acc)
+        acc.sample({"kind": "bulk_shots", "n_shots": sh["n_shots"]}, cap=1)
+        return acc
     if k == "wide":
         from props import c10
         for nm in (1, 2):
@@ -620,6 +697,13 @@ def run_shard(sh):
         if sh["what"] == "exp":
             acc.states += 1
             check_shots({"kind": "shots", "prep": prep, "op": single[1], "n_shots": 1, "what": "exp", "init": "dense"}, acc)
+        else:
+            # complex coefficients with finite shots (variance / standard error are real, non-negative numbers)
+            # (four sampler calls per case: kept to registers of <= 2 qubits and one shot so that the tree stays at <= 256 executions)
+            if n <= 2:
+                for w in [x for x in WORDS3 if op_fits([(x, 1)], n) and set(x) != {"I"}][:3]:
+                    acc.states += 1
+                    check_shots({"kind": "shots", "prep": prep, "op": [(w, 0.3 + 0.4j)], "n_shots": 1, "what": sh["what"]}, acc)
         acc.sample({"kind": "shots", "prep": prep, "op": single[1], "n_shots": 2, "what": sh["what"]}, cap=1)
     elif k == "mixed_shots":
         prep = M[sh["mi"]]
@@ -667,7 +751,9 @@ def replay_case(case):
     case = dict(case)
     if "op" in case:
         case["op"] = [(w, (complex(c["re"], c["im"]) if isinstance(c, dict) else c)) for w, c in case["op"]]
-    if k == "wide":
+    if k == "bulk_shots":
+        check_bulk_shots(case, acc)
+    elif k == "wide":
         from props import c10
         c10.check_wide(case, acc)
     elif k == "exact":
